@@ -83,8 +83,11 @@ type Account struct {
 
 // deterministicKey grinds a key from a fixed label until its address lies in
 // zone 0-0 and in the wanted ledger. Pure function of (label, qi).
-func deterministicKey(label string, qi bool) Account {
-	for i := 0; ; i++ {
+func deterministicKey(label string, qi bool) Account { return deterministicKeyFrom(label, qi, 0) }
+
+// deterministicKeyFrom starts the grind at counter start (used for keys found once by a longer search).
+func deterministicKeyFrom(label string, qi bool, start int) Account {
+	for i := start; ; i++ {
 		h := sha256.Sum256([]byte(fmt.Sprintf("verif-key/%s/%d", label, i)))
 		k, err := crypto.ToECDSA(h[:])
 		if err != nil {
@@ -118,7 +121,17 @@ func init() {
 		quaiAccounts = append(quaiAccounts, deterministicKey(fmt.Sprintf("quai%d", i), false))
 	}
 	for i := 0; i < 16; i++ {
-		qiAccounts = append(qiAccounts, deterministicKey(fmt.Sprintf("qi%d", i), true))
+		switch i {
+		case 3: // a public key whose X coordinate has a leading zero byte (found once: counter 4453)
+			qiAccounts = append(qiAccounts, deterministicKeyFrom("qizx", true, 4453))
+		case 9: // ... whose Y coordinate has a leading zero byte (counter 79541)
+			qiAccounts = append(qiAccounts, deterministicKeyFrom("qizy", true, 79541))
+		default:
+			qiAccounts = append(qiAccounts, deterministicKey(fmt.Sprintf("qi%d", i), true))
+		}
+	}
+	if len(qiAccounts[3].Key.PublicKey.X.Bytes()) >= 32 || len(qiAccounts[9].Key.PublicKey.Y.Bytes()) >= 32 {
+		panic("harness: the short-coordinate keys are not what they were found to be")
 	}
 }
 
